@@ -1,12 +1,27 @@
 package world
 
+import (
+	"github.com/RoaringBitmap/roaring/v2/roaring64"
+
+	"verif/model"
+)
+
 // Ext holds the non-B32 population: cursors, 64-bit bitmaps, BSIs.
 type Ext struct {
-	w   *World
-	Cur [numCursors]*Cursor
+	w       *World
+	Cur     [numCursors]*Cursor
+	B64     []*Obj64
+	outs64  map[int]bool
+	Buckets []uint32
 }
 
-func newExt(w *World) *Ext { return &Ext{w: w} }
+func newExt(w *World) *Ext {
+	x := &Ext{w: w, outs64: map[int]bool{}}
+	for i := 0; i < numB64; i++ {
+		x.B64 = append(x.B64, &Obj64{BM: roaring64.New(), M: model.NewSet64(), Prov: "new"})
+	}
+	return x
+}
 
 // dropCursorsOf invalidates the cursors pinned to a slot (documented: an
 // iterator is invalid once its bitmap is modified).
@@ -32,4 +47,4 @@ func (x *Ext) dropRegion(ri int) {
 	}
 }
 
-func (x *Ext) afterStep(tag string) {}
+func (x *Ext) afterStep(tag string) { x.after64(tag) }
